@@ -425,6 +425,11 @@ def execute(plan):
             elif mode == "failfast" and single and x[1][0][0] != y[1][0][0]:
                 res.violate(f"C06|{K}|failfast|class_differs|{x[1][0][0]}_vs_{y[1][0][0]}",
                             f"single failing item but error classes differ: {x[1]} vs {y[1]}")
+            elif mode == "failfast" and not single and x[1][0] != y[1][0]:
+                # several failing items: both strategies go through the fields in the order of declaration and through the
+                # additional items after them, so the failure that is met first is the same one
+                res.violate(f"C06|{K}|failfast|first_failure_differs|{x[1][0][0]}_vs_{y[1][0][0]}",
+                            f"several failing items, the one reported differs: {x[1]} vs {y[1]}")
 
     compare("collect", ca, cb, False)
     single = ca[0] == "ParseError" and cb[0] == "ParseError" and len(ca[1]) == 1 and len(cb[1]) == 1
